@@ -84,7 +84,7 @@ def run_patch(kind, name):
 def main():
     kind = sys.argv[1]
     base = f"{SRC_ROOT}/{'seeded' if kind == 'seeds' else kind}"
-    names = sorted(d for d in os.listdir(base) if os.path.isdir(f"{base}/{d}"))
+    names = sorted(d for d in os.listdir(base) if os.path.isfile(f"{base}/{d}/patch.diff"))
     if len(sys.argv) > 2:
         names = [n for n in names if n in sys.argv[2:]]
     os.makedirs(SCRATCH, exist_ok=True)
